@@ -850,17 +850,41 @@ def check_gds_real(ctx, db):
     cons['enc_shift'] = int(m.group(1)) if m else None
     m = re.search(r'& (\d+)\)\)', te)
     cons['enc_mask'] = int(m.group(1)) if m else None
-    m = re.search(r'\(\(\$real & (\d+)\) >> (\d+)\) - (\d+)\)', td)
-    cons['dec_expmask'], cons['dec_shift'], cons['dec_sub'] = (int(m.group(1)), int(m.group(2)), int(m.group(3))) if m else (None, None, None)
-    m = re.search(r'\(double\)\(\$real & (\d+)\) / ([\d.e+]+)\)', td)
-    cons['dec_mask'], cons['dec_div'] = (int(m.group(1)), float(m.group(2))) if m else (None, None)
+    # decoder: evaluated (sa/minieval.py, exact rationals) on the boundary bit patterns of sign, excess-64 exponent and mantissa; it must
+    # return (-1)^s * (mantissa / 2^56) * 16^(E - 64) - however the fields are extracted
+    from .. import minieval as M
+    from fractions import Fraction
+
+    def hook(callee, args, node):
+        if callee == 'exp2':
+            a = args[0]
+            return (Fraction(2) ** int(a) if int(a) == a else None,)
+        return None
+    dec_bad = None
+    nd = 0
+    for sgn in (0, 1):
+        for E in (0, 1, 63, 64, 65, 127):
+            for mant in (1, 1 << 52, 1 << 55, (1 << 56) - 1):
+                real = (sgn << 63) | (E << 56) | mant
+                try:
+                    M.Mini(db, hook=hook).run(d.body, {d.params[0]['n']: real})
+                    got = None
+                except M.Return as rr:
+                    got = rr.v
+                except AnalysisBroken as ex:
+                    raise AnalysisBroken('gdsii_real_to_double is not evaluable: %s' % ex)
+                want = Fraction(-1 if sgn else 1) * Fraction(mant, 1 << 56) * (Fraction(16) ** (E - 64))
+                nd += 1
+                if got != want and dec_bad is None:
+                    dec_bad = 'bits %016x decode to %s, the format defines %s' % (real, got, want)
+    ctx.explored['valuations'] += nd
     ok = None not in cons.values()
     if ok:
-        ok = cons['digits'] * 4 == cons['enc_shift'] == 56 and cons['enc_mask'] == (1 << 56) - 1 == cons['dec_mask'] and cons['dec_div'] == float(1 << 56) and \
-            cons['dec_expmask'] == 0x7F << 56 and cons['dec_shift'] == cons['enc_shift'] - 2 and cons['dec_sub'] == 4 * cons['bias'] and cons['bias'] == 64
-    ctx.check(bool(ok), 'R-CONST', 'gdsii-real/paired-constants', e.loc(), 'encoder (bias 64, 14 hex digits, << 56, 56-bit mask) and decoder (>> 54 = x4 exponent, - 256 = 4 x 64, / 2^56) constants agree', 'constants: %s' % cons)
-    ok = "if (($value < 0))" in te and '(v0 = 128)' in te and '($value = (-$value))' in te and '($real & 9223372036854775808) ? (-v2) : v2' in td
-    ctx.check(ok, 'R-CONST', 'gdsii-real/sign', e.loc(), 'the sign is bit 63 on both sides and the magnitude is encoded')
+        ok = cons['digits'] * 4 == cons['enc_shift'] == 56 and cons['enc_mask'] == (1 << 56) - 1 and cons['bias'] == 64
+    ctx.check(bool(ok) and dec_bad is None, 'R-CONST', 'gdsii-real/paired-constants', e.loc(), 'encoder (bias 64, 14 hex digits, << 56, 56-bit mask) and decoder ((-1)^s x mantissa/2^56 x 16^(E-64) on %d boundary bit patterns) agree' % nd,
+              'constants: %s; decoder: %s' % (cons, dec_bad))
+    ok = "if (($value < 0))" in te and '(v0 = 128)' in te and '($value = (-$value))' in te
+    ctx.check(ok and dec_bad is None, 'R-CONST', 'gdsii-real/sign', e.loc(), 'the sign is bit 63 on both sides and the magnitude is encoded')
     ctx.check('if (($value == 0))' in te and te.splitlines()[1].strip() == 'return 0', 'R-SHAPE', 'gdsii-real/zero', e.loc(), 'zero is encoded as all-zero bits before any logarithm is taken')
     # exponent normalisation idiom: exponent = floor(log16 v) + 1
     idiom = None
